@@ -277,6 +277,9 @@ func Build(v sb.V) interface{} {
 		return NilEmbIface{X: 1}
 	case "embednil:safe":
 		return NilEmbSafe{X: 1}
+	case "embednil:time":
+		// String, MarshalJSON, ... are promoted from the nil *time.Time
+		return NilEmbTime{Name: "launch"}
 	case "dag":
 		// 40 levels of lists that share their sub-lists: small in memory, 2^40
 		// paths for a comparison that does not remember what it has compared
@@ -651,8 +654,8 @@ func OwnNum(v interface{}) (float64, bool) {
 // or one of the menagerie's structs that embed a nil pointer or interface.
 func isNilPtr(v interface{}) bool {
 	switch v.(type) {
-	case NilEmbStringer, NilEmbNumber, NilEmbBoolean, NilEmbIface, NilEmbSafe,
-		*NilEmbStringer, *NilEmbNumber, *NilEmbBoolean, *NilEmbIface, *NilEmbSafe:
+	case NilEmbStringer, NilEmbNumber, NilEmbBoolean, NilEmbIface, NilEmbSafe, NilEmbTime,
+		*NilEmbStringer, *NilEmbNumber, *NilEmbBoolean, *NilEmbIface, *NilEmbSafe, *NilEmbTime:
 		return true
 	}
 	rv := reflect.ValueOf(v)
@@ -716,4 +719,9 @@ type NilEmbIface struct {
 type NilEmbSafe struct {
 	stick.SafeValue
 	X int
+}
+
+type NilEmbTime struct {
+	*time.Time
+	Name string
 }
